@@ -31,10 +31,10 @@ STEP = st.sampled_from([None, None, 1, -1, 2, -2, 3, -3])
 SL = st.tuples(B, B, STEP).map(lambda t: ["s", t[0], t[1], t[2]])
 RSEL = st.one_of(SL, SL,
                  st.tuples(st.lists(st.integers(0, 40), max_size=5), st.sampled_from(["list", "int64"])).map(lambda t: ["l", t[0], t[1]]),
-                 st.lists(st.booleans(), min_size=1, max_size=6).map(lambda m: ["m", m, True]),
+                 st.tuples(st.lists(st.booleans(), min_size=1, max_size=6), st.sampled_from([True, True, False])).map(lambda t: ["m", t[0], t[1]]),
                  st.just(["e"]))
 RSEL_VIEW = st.one_of(SL, st.tuples(st.lists(st.integers(0, 40), min_size=1, max_size=5), st.just("int64")).map(lambda t: ["l", t[0], t[1]]),
-                      st.lists(st.booleans(), min_size=1, max_size=6).map(lambda m: ["m", m, True]))
+                      st.tuples(st.lists(st.booleans(), min_size=1, max_size=6), st.sampled_from([True, True, False])).map(lambda t: ["m", t[0], t[1]]))
 CSEL = st.one_of(st.none(), st.none(), SL, SL, st.tuples(st.integers(-4, 4), st.booleans()).map(lambda t: ["i", t[0], t[1]]))
 CSEL_SLICE = st.one_of(st.none(), SL, SL)
 VAR = st.one_of(st.sampled_from([-1, -1, -1, -2, -2, 0]), st.integers(0, 60))   # k mod #live; -1 = newest variable
@@ -251,7 +251,7 @@ def body_chain(case, ctx):
 SL3 = st.tuples(B, B, st.sampled_from([None, 1, -1, 2, -2, 3, -3])).map(lambda t: ["s", t[0], t[1], t[2]])
 CHAIN_R = st.one_of(st.tuples(B, B, st.sampled_from([None, 1, -1, 2, -2])).map(lambda t: ["s", t[0], t[1], t[2]]),
                     st.tuples(st.lists(st.integers(0, 40), min_size=1, max_size=5), st.just("int64")).map(lambda t: ["l", t[0], t[1]]),
-                    st.lists(st.booleans(), min_size=1, max_size=6).map(lambda m: ["m", m, True]), st.just(["e"]))
+                    st.tuples(st.lists(st.booleans(), min_size=1, max_size=6), st.sampled_from([True, True, False])).map(lambda t: ["m", t[0], t[1]]), st.just(["e"]))
 
 
 @st.composite
